@@ -43,6 +43,8 @@ SETTINGS = [
     {'omit': None, 'uu': 'always'},
     {'omit': None, 'uu': 'never'},
     {'omit': None, 'uu': 5},
+    {'omit': None, 'uu': None, 'cb': 'raises-on-error-update'},
+    {'omit': 0, 'uu': 'always', 'cb': 'raises-always'},
 ]
 TICKS = [0.05, 1.0, 20.0]
 
@@ -100,6 +102,10 @@ def make_error(name):
     return getattr(errors, cls)(text)
 
 
+def _raising_callback(*args):
+    raise RuntimeError('callback failure')
+
+
 class SeqWorld:
     """fresh node + activated connection + cache-change log, driven by one history"""
     def __init__(self, pname, setting):
@@ -117,6 +123,12 @@ class SeqWorld:
         self.pobj = self.mod.parameters[pname]
         self.spec = f'm:{self.pobj.export}'
         self.changes = []
+        cb = setting.get('cb')
+        if cb == 'raises-on-error-update':
+            # the documented update_<param>(value) style without the err argument: TypeError on every error update
+            self.mod.addCallback(pname, lambda value: None)
+        elif cb == 'raises-always':
+            self.mod.addCallback(pname, _raising_callback)
         self.mod.addCallback(pname, self._cb)
         self.conn = self.node.connect()
         self.node.request(self.conn, 'activate')
@@ -261,6 +273,8 @@ CONC_CASES = {
     'read-write-assign': [[['read', 'm', 'x', None]], [['change', 'm', '_x', 5]], [['assign', 'm', 'value', 1.5]]],
     'recover-equal': [[['error', 'm', 'value', 'boom'], ['assign', 'm', 'value', 3.5]], [['assign', 'm', 'value', 3.5]]],
     'equal-values': [[['assign', 'm', 'value', 1.5]], [['assign', 'm', 'value', 1.5]]],
+    'reassign-current-vs-change': [[['assign', 'm', 'value', 0.0]], [['assign', 'm', 'value', 2.5]]],
+    'reassign-current-vs-error': [[['assign', 'm', 'x', 0]], [['error', 'm', 'x', 'boom'], ['assign', 'm', 'x', 0]]],
     'three-writers': [[['assign', 'm', 'x', 1]], [['write', 'm', 'x', 2]], [['change', 'm', '_x', 3]]],
     'read-fail-vs-read-ok': [[['read', 'm', 'value', None]], [['read', 'm', 'value', None]]],
 }
@@ -274,7 +288,7 @@ def conc_cases(tier):
     res = []
     for name, threads in CONC_CASES.items():
         res.append({'kind': 'conc', 'name': name, 'threads': threads, 'level': 'sync', 'bound': 2 if tier == 'quick' else 3})
-        if tier == 'thorough' or name in ('two-assign', 'recover-equal', 'read-write-assign'):
+        if tier == 'thorough' or name in ('two-assign', 'recover-equal', 'read-write-assign', 'reassign-current-vs-change'):
             res.append({'kind': 'conc', 'name': name + '/line', 'threads': threads, 'level': 'line', 'bound': 1 if tier == 'quick' else 2})
     return res
 
